@@ -458,6 +458,12 @@ pub struct SetupCfg {
     pub features: u32,
     pub setup_errno: Option<i32>,
     pub scribble: bool,
+    /// Copied into `register_fail` of every ring created (register opcode -> errno).
+    pub register_fail: BTreeMap<u32, i32>,
+    /// Report these `sq_entries` / `cq_entries` to the caller instead of the granted ones
+    /// (the ring itself keeps the granted sizes).
+    pub echo_sq: Option<u32>,
+    pub echo_cq: Option<u32>,
 }
 
 impl Default for SetupCfg {
@@ -468,6 +474,9 @@ impl Default for SetupCfg {
             features: FEAT_DEFAULT,
             setup_errno: None,
             scribble: true,
+            register_fail: BTreeMap::new(),
+            echo_sq: None,
+            echo_cq: None,
         }
     }
 }
@@ -789,13 +798,25 @@ fn sim_setup(entries: u32, p: *mut Params) -> i64 {
         return errno_ret(e);
     }
     let flags = params_in.flags;
+    // Refusals by the sizing rules are logged like scripted ones.
+    let einval = || {
+        with_sim(|s| {
+            s.events.push(KEv::Setup {
+                fd: -1,
+                params_in,
+                params_out: params_in,
+                ret: -(libc::EINVAL as i64),
+            })
+        });
+        errno_ret(libc::EINVAL)
+    };
     if entries == 0 {
-        return errno_ret(libc::EINVAL);
+        return einval();
     }
     let mut sq_entries = entries;
     if sq_entries > 32768 {
         if flags & SETUP_CLAMP == 0 {
-            return errno_ret(libc::EINVAL);
+            return einval();
         }
         sq_entries = 32768;
     }
@@ -803,17 +824,17 @@ fn sim_setup(entries: u32, p: *mut Params) -> i64 {
     let cq_entries = if flags & SETUP_CQSIZE != 0 {
         let mut c = params_in.cq_entries;
         if c == 0 {
-            return errno_ret(libc::EINVAL);
+            return einval();
         }
         if c > 65536 {
             if flags & SETUP_CLAMP == 0 {
-                return errno_ret(libc::EINVAL);
+                return einval();
             }
             c = 65536;
         }
         let c = c.next_power_of_two();
         if c < sq_entries {
-            return errno_ret(libc::EINVAL);
+            return einval();
         }
         c
     } else {
@@ -849,6 +870,12 @@ fn sim_setup(entries: u32, p: *mut Params) -> i64 {
     out.sq_entries = sq_entries;
     out.cq_entries = cq_entries;
     out.features = cfg.features;
+    if let Some(n) = cfg.echo_sq {
+        out.sq_entries = n;
+    }
+    if let Some(n) = cfg.echo_cq {
+        out.cq_entries = n;
+    }
     out.sq_off = SqOff {
         head: SQ_HEAD as u32,
         tail: SQ_TAIL as u32,
@@ -889,7 +916,7 @@ fn sim_setup(entries: u32, p: *mut Params) -> i64 {
         pbufs: BTreeMap::new(),
         files: None,
         enter_scripts: VecDeque::new(),
-        register_fail: BTreeMap::new(),
+        register_fail: cfg.register_fail.clone(),
         enabled: flags & SETUP_R_DISABLED == 0,
         closed: false,
         scribble: cfg.scribble,
@@ -1058,6 +1085,18 @@ impl SimRing {
     }
     pub fn sqe_at(&self, index: u32) -> Sqe {
         unsafe { *self.sqes.add((index & (self.sq_entries - 1)) as usize) }
+    }
+    /// Published, unconsumed completions, oldest first.
+    pub fn cq_pending(&self) -> Vec<Cqe> {
+        let mut v = Vec::new();
+        let mut h = self.cq_head();
+        let t = self.cq_tail();
+        while h != t {
+            let idx = (h & (self.cq_entries - 1)) as usize;
+            v.push(unsafe { std::ptr::read_volatile(self.cq_ring.add(CQ_CQES + idx * 16) as *const Cqe) });
+            h = h.wrapping_add(1);
+        }
+        v
     }
     pub fn cq_count(&self) -> u32 {
         self.cq_tail().wrapping_sub(self.cq_head())
